@@ -30,7 +30,6 @@ func Fixed(k int) Schedule {
 // Whole delivers everything that is asked for.
 func Whole() Schedule { return func() int { return 1 << 30 } }
 
-
 // FromFunc builds a schedule from a generator of raw numbers and a maximum.
 func FromFunc(next func() uint64, max int) Schedule {
 	if max < 1 {
